@@ -54,6 +54,19 @@ def checkSetFrom (prev : Option Bytes) (bs : Bytes) : Except VErr Unit :=
       | none => checkSetFrom (some cur) rest
 termination_by bs.length
 
+/-- `walkMap`: keys and values alternate; an odd item count makes `Next` panic. -/
+def walkPairs (wk wv : Option Bytes → Except VErr Unit) : List (Option Bytes) → Except VErr Unit
+  | [] => .ok ()
+  | [k] => match wk k with
+    | .error e => .error e
+    | .ok () => .error (.iterPanic .badUvarint)
+  | k :: v :: r =>
+    match wk k with
+    | .error e => .error e
+    | .ok () => match wv v with
+      | .error e => .error e
+      | .ok () => walkPairs wk wv r
+
 mutual
 /-- `Walk(typ, body, validateVisitor)`.  `Walk` on a named type only descends, and the
     visitor ignores named types, so `walkSet`/`walkMap`'s `TypeUnder` is not visible. -/
@@ -120,19 +133,6 @@ def walkNth : ZTys → Nat → Option Bytes → Except VErr Unit
   | .cons t _, 0, b => walk t b
   | .cons _ r, n + 1, b => walkNth r n b
 end
-where
-  /-- `walkMap`: keys and values alternate; an odd item count makes `Next` panic. -/
-  walkPairs (wk wv : Option Bytes → Except VErr Unit) : List (Option Bytes) → Except VErr Unit
-    | [] => .ok ()
-    | [k] => match wk k with
-      | .error e => .error e
-      | .ok () => .error (.iterPanic .badUvarint)
-    | k :: v :: r =>
-      match wk k with
-      | .error e => .error e
-      | .ok () => match wv v with
-        | .error e => .error e
-        | .ok () => walkPairs wk wv r
 
 /-- `Value.Validate`. -/
 def validate (t : ZTy) (b : Option Bytes) : Bool :=
